@@ -110,6 +110,7 @@ type Interp struct {
 	timeNondet bool
 	randNondet bool
 	chanOnly   bool
+	timeVal    *Term
 	initSteps int64
 }
 
